@@ -1,4 +1,4 @@
-CONSTANTS Values = {0}  Wants = {"prv", "pub", "dflt"}  PathSet = "marks"  MaxOps = 3  SeedLen = 16  KeyMode = "full"
+CONSTANTS Values = {0}  Wants = {"prv", "pub", "dflt"}  PathSet = "marks"  MaxOps = 3  SeedLen = 16  KeyMode = "full"  TwoRoots = FALSE
 SPECIFICATION Spec
 VIEW View
 INVARIANTS CacheTransparent ResultIsPure CompactSound MemoSound PublicStaysPublic ResOk
